@@ -13,6 +13,8 @@ val length : 'a1 list -> nat
 
 val app : 'a1 list -> 'a1 list -> 'a1 list
 
+val pred : nat -> nat
+
 val add : nat -> nat -> nat
 
 val mul : nat -> nat -> nat
@@ -364,14 +366,17 @@ type stmt =
 | SIf of cond * stmt * stmt
 | SWhile of cond * stmt
 | SReturn of atom_e
+| SConv of var * nat * nat
+| SCallI of nat * dsite * var option * var * nat * nat * atom_e list
 
 type func = { f_nparams : nat; f_body : stmt }
 
-type program = { p_funcs : func list; p_ginit : bool list }
+type program = { p_funcs : func list; p_ginit : bool list;
+                 p_impls : fname list list }
 
 type value =
 | VNil
-| VPtr
+| VPtr of (nat * nat) option
 
 type store0 = (var * value) list
 
@@ -415,6 +420,8 @@ type asite =
 | SGlobal of nat
 | SCallParam of fname * nat
 | SCallResult of fname * nat
+| SIParam of nat * nat * nat
+| SIResult of nat * nat
 
 val enc : asite -> site
 
@@ -517,6 +524,16 @@ val dupt : fname -> nat -> strig -> strig
 
 val dups : fname -> nat -> strig list -> strig list
 
+val convs_of : stmt -> (nat * nat) list
+
+val seq_from : nat -> nat -> nat list
+
+val affil_method : nat -> nat -> fname -> nat -> strig list
+
+val affil_methods : func list -> nat -> nat -> fname list -> strig list
+
+val affil : program -> (nat * nat) -> strig list
+
 val calls_of : stmt -> (fname * nat) list
 
 val dups_of_caller :
@@ -530,7 +547,8 @@ val ctr_local :
   (fname -> bool) -> (fname -> fname -> bool) -> fname -> func list -> bool
 
 type pres = { r_decl : strig list; r_funcs : strig list list;
-              r_dups : strig list list; r_gsafe : bool; r_clocal : bool }
+              r_dups : strig list list; r_affil : strig list list;
+              r_gsafe : bool; r_clocal : bool }
 
 val analyze_program :
   nat -> (fname -> bool) -> (fname -> nat) -> program -> pres option
@@ -544,6 +562,8 @@ val cond_ok : program -> cond -> bool
 val stmt_ok : program -> stmt -> bool
 
 val wf_program : program -> bool
+
+val impls_plain : program -> (fname -> bool) -> bool
 
 val ctr_arity : (fname -> bool) -> fname -> func list -> bool
 
@@ -564,6 +584,8 @@ val opt_inter : pset option -> pset option -> pset option
 val stmt_prot : stmt -> pset -> pset option * bool
 
 val guarded : program -> bool
+
+val anil : value -> bool
 
 val value_eqb : value -> value -> bool
 
